@@ -10,7 +10,11 @@
 (*   L(l)      list of strings (compose, list-valued attributes)           *)
 (*   T(t)      tuple of values (combine)                                   *)
 (*   D(m)      dictionary, m a function from key strings                   *)
-(* Data: DI(n) integer, DT(t) tuple of data.                               *)
+(* Data: DI(n) integer, DT(t) tuple of data, DN None, DD(n) the dictionary  *)
+(*       {"layer": n}, DE "the getter raised".  A tuple of two data whose  *)
+(*       second one is a dictionary LOOKS LIKE a (data, context) value     *)
+(*       (lena.flow.functions._has_context): Hit(d) = ((x, x+1), {"layer": *)
+(*       x}).  Data is what getters receive: it is never re-interpreted.   *)
 (* Variable: [name |-> toks, type |-> string ("" = none),                  *)
 (*            attrs |-> function attribute -> value, g |-> getter id]      *)
 (* Expression: [k |-> "var", v |-> variable, ch |-> <<>>]                  *)
@@ -35,6 +39,12 @@ Without(d, key) == D([x \in DOMAIN d.m \ {key} |-> d.m[x]])
 DI(n) == [k |-> "I", i |-> n, t |-> <<>>]
 DT(t) == [k |-> "T", i |-> 0, t |-> t]
 DN == [k |-> "N", i |-> 0, t |-> <<>>]   \* None
+DD(n) == [k |-> "D", i |-> n, t |-> <<>>]   \* the dictionary {"layer": n} as (part of) data
+DE == [k |-> "E", i |-> 0, t |-> <<>>]   \* no data: a getter was given data it cannot take (raises)
+\* a measurement that is a pair (coordinates, attributes): ((x, x+1), {"layer": x})
+Hit(d) == DT(<<DT(<<d, DI(d.i + 1)>>), DD(d.i)>>)
+\* data that lena.flow.get_data_context would take for a (data, context) pair
+LooksLikeValue(d) == d.k = "T" /\ Len(d.t) = 2 /\ d.t[2].k = "D"
 
 NoVar == [name |-> <<>>, type |-> "", attrs |-> <<>>, g |-> ""]
 Var(v) == [k |-> "var", v |-> v, ch |-> <<>>]
@@ -46,7 +56,16 @@ CmpKw(ch, kw) == [k |-> "cmp", v |-> kw, ch |-> ch]   \* Compose(.., **attribute
 (***************************************************************************)
 (* Getters (the harness uses the same table).                              *)
 (***************************************************************************)
-G(g, d) == CASE g = "inc" -> DI(d.i + 1)
+\* which data a getter can take (anything else: it raises, DE)
+IntGetters == {"inc", "dbl", "tri", "sq", "add5", "pair", "hit"}
+Accepts(g, d) == CASE d.k = "E" -> FALSE
+                   [] g \in IntGetters -> d.k = "I"
+                   [] g = "first" -> d.k = "T" /\ Len(d.t) >= 1
+                   [] g = "len" -> d.k = "T"
+                   [] g = "layer" -> LooksLikeValue(d)
+                   [] OTHER -> TRUE                     \* none, dflt, isnone, identity: total
+G(g, d) == CASE ~Accepts(g, d) -> DE
+             [] g = "inc" -> DI(d.i + 1)
              [] g = "dbl" -> DI(2 * d.i)
              [] g = "tri" -> DI(3 * d.i)
              [] g = "sq" -> DI(d.i * d.i)
@@ -54,6 +73,11 @@ G(g, d) == CASE g = "inc" -> DI(d.i + 1)
              [] g = "none" -> DN                       \* a getter that returns None
              [] g = "pair" -> DT(<<d, DI(d.i + 1)>>)   \* a getter that returns a pair
              [] g = "first" -> d.t[1]                  \* first component of a tuple
+             [] g = "hit" -> Hit(d)                    \* a pair that looks like a (data, context) value
+             [] g = "len" -> DI(Len(d.t))              \* number of components of a tuple
+             [] g = "layer" -> DI(d.t[2].i)            \* hit[1]["layer"]
+             [] g = "dflt" -> IF d.k = "N" THEN DI(7) ELSE d    \* a default for missing data
+             [] g = "isnone" -> DI(IF d.k = "N" THEN 1 ELSE 0)  \* data is None
              [] OTHER -> d
 
 (***************************************************************************)
@@ -117,14 +141,45 @@ VC(e) ==
                           ELSE IF x = "dim" THEN I(ToString(Len(e.ch)))
                           ELSE IF x = "combine" THEN T(vcs) ELSE e.v.attrs[x]])
          IN IF e.v.type = "" THEN base ELSE With(With(base, e.v.type, base), "type", S(<<e.v.type>>))
+\* a tuple can only be built when every member produced data
+Tup(t) == IF \E j \in 1..Len(t) : t[j].k = "E" THEN DE ELSE DT(t)
 GetChain(ch, d) == IF ch = <<>> THEN d ELSE GetChain(Tail(ch), Get(Head(ch), d))
+\* THE REFERENCE: the getter of an expression as a function of data.  Compose is the composition
+\* of the getters, Combine the tuple of the getters' results - whatever the data is (None, a tuple,
+\* a pair that looks like a value).
 Get(e, d) ==
   CASE e.k = "var" -> G(e.v.g, d)
     [] e.k = "cmp" -> GetChain(e.ch, d)
-    [] e.k = "cmb" -> DT([j \in 1..Len(e.ch) |-> Get(e.ch[j], d)])
+    [] e.k = "cmb" -> Tup([j \in 1..Len(e.ch) |-> Get(e.ch[j], d)])
+\* the getters of the expression can take the data (no getter raises)
+Def(e, d) == Get(e, d).k # "E"
+DefChain(ch, d) == GetChain(ch, d).k # "E"
+
+(***************************************************************************)
+(* THE MACHINE: data returned by expression.__call__ for a value with the  *)
+(* data d.  Variant = "doc": as documented, the getter is applied to the   *)
+(* data, and a Combine / Compose applies the getters of its members.       *)
+(* Design-level defect models (TLC must find the counterexample):          *)
+(*   "combine-via-call"  Combine's getter routes the data through the      *)
+(*       members' public call, get_data(var(data)): data that looks like a *)
+(*       (data, context) pair is split once more                           *)
+(*   "skip-missing"      Variable.__call__ leaves data None untouched      *)
+(*       (the getters of Compose / Combine are still applied)              *)
+(***************************************************************************)
+CONSTANT Variant
+Reinterpret(d) == IF LooksLikeValue(d) THEN d.t[1] ELSE d
+RECURSIVE CallData(_, _), ImplGet(_, _), ImplChain(_, _)
+CallData(e, d) == IF Variant = "skip-missing" /\ d.k = "N" THEN d ELSE ImplGet(e, d)
+ImplChain(ch, d) == IF ch = <<>> THEN d ELSE ImplChain(Tail(ch), ImplGet(Head(ch), d))
+ImplGet(e, d) ==
+  CASE e.k = "var" -> G(e.v.g, d)
+    [] e.k = "cmp" -> ImplChain(e.ch, d)
+    [] e.k = "cmb" -> Tup([j \in 1..Len(e.ch) |->
+                             IF Variant = "combine-via-call" THEN CallData(e.ch[j], Reinterpret(d))
+                             ELSE ImplGet(e.ch[j], d)])
 
 \* Variable.__call__ on the value [d, c]
-Apply(e, val) == [d |-> Get(e, val.d), c |-> UpdateCtx(val.c, VC(e))]
+Apply(e, val) == [d |-> CallData(e, val.d), c |-> UpdateCtx(val.c, VC(e))]
 RECURSIVE ApplySeq(_, _)
 ApplySeq(ch, val) == IF ch = <<>> THEN val ELSE ApplySeq(Tail(ch), Apply(Head(ch), val))
 
@@ -140,6 +195,10 @@ AllTyped(ch) == \A j \in 1..Len(ch) : ch[j].k = "var" /\ ch[j].v.type # ""
 \* a plain variable without type somewhere in the chain (also inside nested expressions)
 RECURSIVE HasUntyped(_)
 HasUntyped(ch) == \E j \in 1..Len(ch) : IF ch[j].k = "var" THEN ch[j].v.type = "" ELSE HasUntyped(ch[j].ch)
+\* ... or a Combine without a type that is followed by another element: it is an untyped variable
+\* as well (Combine does not take over the types of its members)
+UntypedCombineInside(ch) == \E j \in 1..(Len(ch) - 1) : ch[j].k = "cmb" /\ ch[j].v.type = ""
+LosesTypes(ch) == HasUntyped(ch) \/ UntypedCombineInside(ch)
 DistinctTypes(ch) == \A j, j2 \in 1..Len(ch) : j # j2 => ch[j].v.type # ch[j2].v.type
 Types(ch) == [j \in 1..Len(ch) |-> ch[j].v.type]
 PrevTypes(ctx) ==
